@@ -8,6 +8,11 @@ package main
 //   c11 : the same inputs under permutations of the state sets, shuffles inside every list, duplicated
 //         auth-event entries and repeated runs, through the current and the deprecated entry points: per entry
 //         point all ID sets coincide; every output is well formed; orderings are topological.
+// Dimensions the concretiser varies under a lemma of StateRes.tla (checked by TLC on the emitted queries):
+//   spelling of the levels of power-levels events (field spell; LevelsSpellingFree), realisation of the depth ranks
+//   as int64 depths (depthReal; V1StrictTotal, V1DepthRankOnly; v2 / v2.1 and the orderings never read depths),
+//   padding of the state sets with a control-type event under a key of its own (padded; PadNeutral).
+//   LineariseStateResponse on responses taken from the rooms: c10lin.go.
 
 import (
 	"crypto/sha1"
@@ -15,6 +20,7 @@ import (
 	"fmt"
 	"hash/fnv"
 	"io"
+	"math"
 	"math/rand"
 	"os"
 	"os/exec"
@@ -43,6 +49,26 @@ type roomEvent struct {
 	SHA        int            `json:"sha"`
 	Addl       []string       `json:"addl"`
 	PUD        *int           `json:"pud,omitempty"` // rank of users_default of a power-levels event; nil / -1: key absent
+	Spell      string         `json:"spell"`         // how a power-levels event writes its levels: int (or ""), str, strpad, float, frac
+}
+
+// spelledLevel writes a level the way the power-levels event spells its levels (StateRes.tla, field spell; the same
+// spellings as the auth model's): room versions 1-9 read the same level from each.
+func spelledLevel(v int64, sp string) json.RawMessage {
+	n := strconv.FormatInt(v, 10)
+	switch sp {
+	case "", "int":
+		return json.RawMessage(n)
+	case "str":
+		return json.RawMessage(`"` + n + `"`)
+	case "strpad":
+		return json.RawMessage(`"  ` + n + ` "`)
+	case "float":
+		return json.RawMessage(n + ".0")
+	case "frac":
+		return json.RawMessage(n + ".5") // truncated towards zero: 50.5 -> 50, -1.5 -> -1
+	}
+	panic("unknown spelling " + sp)
 }
 
 // pud returns the rank of users_default (-1: the content has no such key).
@@ -56,15 +82,15 @@ func (e roomEvent) pud() int {
 // plContent is the content of a power-levels event of a room model: the users map and, where the model sets it,
 // users_default (every other threshold keeps its default).
 func (e roomEvent) plContent() map[string]interface{} {
-	users := map[string]int64{}
+	users := map[string]json.RawMessage{}
 	for u, r := range e.PLU {
 		if r >= 0 {
-			users[userIDs[u]] = roomLadder[r]
+			users[userIDs[u]] = spelledLevel(roomLadder[r], e.Spell)
 		}
 	}
 	c := map[string]interface{}{"users": users}
 	if r := e.pud(); r >= 0 {
-		c["users_default"] = roomLadder[r]
+		c["users_default"] = spelledLevel(roomLadder[r], e.Spell)
 	}
 	return c
 }
@@ -113,6 +139,158 @@ type roomM struct {
 	pdus  map[int]gmsl.PDU
 	byID  map[string]int
 	types map[int]string
+	dr    depthReal // how the depth ranks of the model are realised as int64 depths
+}
+
+// depthReal is a realisation of the model's depth ranks as the sender-chosen int64 depths of the real events.
+// StateRes.tla: the definition reads the depths (algorithm v1 only) through their order, so every strictly increasing
+// realisation defines the same state (lemma V1DepthRankOnly); algorithms v2 / v2.1 and the topological orderings do
+// not read them at all, so for those the depths may also run against the DAG.
+type depthReal struct {
+	name string
+	f    func(int64) int64 // nil: the rank itself
+}
+
+func (d depthReal) of(rank int64) int64 {
+	if d.f == nil {
+		return rank
+	}
+	return d.f(rank)
+}
+
+var naturalDepths = depthReal{name: "natural"}
+
+// againstDepths: depths that decrease along the DAG (a server with a wrong depth counter, or a hostile one).
+var againstDepths = depthReal{name: "against-the-dag", f: func(r int64) int64 { return 1000 - r }}
+
+// pivotDepths: ranks below p far below zero, p itself 0, ranks above p far above zero: neighbours of p are
+// 6e18 apart from it, ranks on different sides more than 2^63 apart from each other.  Strictly increasing.
+func pivotDepths(p int64) depthReal {
+	const far, step = int64(6_000_000_000_000_000_000), int64(1_000_000_000_000_000)
+	return depthReal{name: fmt.Sprintf("extreme(pivot rank %d: below -> <= -6e18, above -> >= 6e18)", p), f: func(r int64) int64 {
+		switch {
+		case r < p:
+			return -far - (p-r-1)*step
+		case r > p:
+			return far + (r-p-1)*step
+		}
+		return 0
+	}}
+}
+
+// edgeDepths: ranks up to lo next to the smallest int64, ranks from hi on next to the largest, the ones in between
+// unchanged.  Strictly increasing (ranks are below 1000).
+func edgeDepths(lo, hi int64) depthReal {
+	return depthReal{name: fmt.Sprintf("extreme(ranks <= %d next to MinInt64, ranks >= %d next to MaxInt64)", lo, hi), f: func(r int64) int64 {
+		switch {
+		case r <= lo:
+			return math.MinInt64 + r
+		case r >= hi:
+			return math.MaxInt64 - (1000 - r)
+		}
+		return r
+	}}
+}
+
+// v1DepthReals: the realisations a version-1 query is run under besides the natural one.  Only keys with conflicting
+// events of different depths can tell realisations apart: for each such key the edge realisation around its depth
+// range, and a pivot at every depth rank strictly inside the range of some key (low < pivot < high is what makes a
+// comparison that is not a total order cyclic).
+func v1DepthReals(q *resQuery) []depthReal {
+	byID := map[int]roomEvent{}
+	for _, e := range q.Events {
+		byID[e.ID] = e
+	}
+	perKey := map[string]map[int]bool{}
+	for _, s := range q.Sets {
+		for _, i := range s {
+			k := byID[i].Type + "\x00" + byID[i].SKey
+			if perKey[k] == nil {
+				perKey[k] = map[int]bool{}
+			}
+			perKey[k][i] = true
+		}
+	}
+	var depths []int64 // all depth ranks of conflicted events
+	type rng struct{ lo, hi int64 }
+	var ranges []rng
+	seenRange := map[rng]bool{}
+	for _, ids := range perKey {
+		if len(ids) < 2 {
+			continue
+		}
+		r := rng{math.MaxInt64, math.MinInt64}
+		for i := range ids {
+			d := byID[i].Depth
+			depths = append(depths, d)
+			r.lo, r.hi = min(r.lo, d), max(r.hi, d)
+		}
+		if r.lo < r.hi && !seenRange[r] {
+			seenRange[r] = true
+			ranges = append(ranges, r)
+		}
+	}
+	sort.Slice(ranges, func(a, b int) bool {
+		return ranges[a].lo < ranges[b].lo || (ranges[a].lo == ranges[b].lo && ranges[a].hi < ranges[b].hi)
+	})
+	var out, edges []depthReal
+	pivots := map[int64]bool{}
+	for _, r := range ranges {
+		edges = append(edges, edgeDepths(r.lo, r.hi))
+		for _, d := range depths {
+			if r.lo < d && d < r.hi {
+				pivots[d] = true
+			}
+		}
+		if r.hi-r.lo >= 2 {
+			pivots[r.lo+1] = true // also a pivot that no conflicted event sits on
+		}
+	}
+	var ps []int64
+	for p := range pivots {
+		ps = append(ps, p)
+	}
+	sort.Slice(ps, func(a, b int) bool { return ps[a] < ps[b] })
+	// at most four, edge and pivot realisations in turn
+	for k := 0; len(out) < 4 && (k < len(edges) || k < len(ps)); k++ {
+		if k < len(edges) {
+			out = append(out, edges[k])
+		}
+		if k < len(ps) && len(out) < 4 {
+			out = append(out, pivotDepths(ps[k]))
+		}
+	}
+	return out
+}
+
+// padded returns the query with one more event - of the given type, under a state key of its own ("p"), cited by
+// nothing - added to the room and to every state set (StateRes.tla, lemma PadNeutral: it is an agreed entry of the
+// state map whatever its type: it is kept and changes nothing else).
+func padded(q *resQuery, typ string) (*resQuery, int) {
+	c := *q
+	id := 0
+	create := 0
+	for _, e := range q.Events {
+		id = max(id, e.ID)
+		if e.Type == "create" && e.SKey == "" {
+			create = e.ID
+		}
+	}
+	id++
+	plu := map[string]int{}
+	for u := range userIDs {
+		plu[u] = -1
+	}
+	pad := roomEvent{ID: id, Type: typ, Sender: "creator", SKey: "p", PLU: plu, Prev: []int{create}, Auth: []int{create}, Depth: 2, TS: 1, Spell: "int"}
+	if typ == "jr" {
+		pad.JR = "invite"
+	}
+	c.Events = append(append([]roomEvent(nil), q.Events...), pad)
+	c.Sets = nil
+	for _, s := range q.Sets {
+		c.Sets = append(c.Sets, append(append([]int(nil), s...), id))
+	}
+	return &c, id
 }
 
 // digest identifies the event by its fields and the (already assigned) IDs of the events it references.
@@ -136,15 +314,18 @@ func (m *roomM) digest(e roomEvent) string {
 	}
 	addl := append([]string(nil), e.Addl...)
 	sort.Strings(addl)
-	h := sha1.Sum([]byte(fmt.Sprint(m.q.Ver, "|", e.Type, "|", e.Sender, "|", e.SKey, "|", e.Membership, "|", us, "|", e.pud(), "|", e.JR,
-		"|", e.Depth, "|", e.TS, "|", addl, "|", ref(e.Prev), "|", ref(e.Auth))))
+	h := sha1.Sum([]byte(fmt.Sprint(m.q.Ver, "|", e.Type, "|", e.Sender, "|", e.SKey, "|", e.Membership, "|", us, "|", e.pud(), "|", e.Spell, "|", e.JR,
+		"|", m.dr.of(e.Depth), "|", e.TS, "|", addl, "|", ref(e.Prev), "|", ref(e.Auth))))
 	return fmt.Sprintf("%x", h[:12])
 }
 
-// stateKeyOf is the concrete state key of a non-member event: "" or, for the model's "x", a key that is no user ID.
+// stateKeyOf is the concrete state key of a non-member event: "" or, for the model's "x" / "p", a key that is no user ID.
 func stateKeyOf(e roomEvent) string {
-	if e.SKey == "" {
+	switch e.SKey {
+	case "":
 		return ""
+	case "p":
+		return "padding"
 	}
 	return "archive"
 }
@@ -172,15 +353,21 @@ func sha1IDs(q *resQuery, own string) map[int]string {
 }
 
 func materialise(q *resQuery) *roomM {
-	m := assignIDs(q, "")
+	return materialiseWith(q, "", naturalDepths)
+}
+
+func materialiseWith(q *resQuery, own string, dr depthReal) *roomM {
+	m := assignIDsWith(q, own, dr)
 	m.build()
 	return m
 }
 
 // assignIDs chooses the event IDs of a query (no event is built yet).  own: "" or a tag that makes the sender-chosen
 // IDs of room versions 1 and 2 the query's own.
-func assignIDs(q *resQuery, own string) *roomM {
-	m := &roomM{q: q, ids: map[int]string{}, pdus: map[int]gmsl.PDU{}, byID: map[string]int{}, types: map[int]string{}}
+func assignIDs(q *resQuery, own string) *roomM { return assignIDsWith(q, own, naturalDepths) }
+
+func assignIDsWith(q *resQuery, own string, dr depthReal) *roomM {
+	m := &roomM{q: q, ids: map[int]string{}, pdus: map[int]gmsl.PDU{}, byID: map[string]int{}, types: map[int]string{}, dr: dr}
 	ver := q.Ver
 	var v1ids map[int]string
 	if ver == "1" {
@@ -212,7 +399,7 @@ func (m *roomM) build() {
 	room := "!room:hs1"
 	createID := ""
 	for _, e := range q.Events {
-		if e.Type == "create" {
+		if e.Type == "create" && e.SKey == "" {
 			createID = m.ids[e.ID]
 		}
 	}
@@ -220,7 +407,7 @@ func (m *roomM) build() {
 		room = "!" + createID[1:]
 	}
 	for _, e := range q.Events {
-		es := eventSpec{Ver: ver, ID: m.ids[e.ID], RoomID: room, Sender: userIDs[e.Sender], Depth: e.Depth, TS: e.TS * 1000}
+		es := eventSpec{Ver: ver, ID: m.ids[e.ID], RoomID: room, Sender: userIDs[e.Sender], Depth: m.dr.of(e.Depth), TS: e.TS * 1000}
 		for _, p := range e.Prev {
 			es.Prev = append(es.Prev, m.ids[p])
 		}
@@ -234,7 +421,7 @@ func (m *roomM) build() {
 		sort.Strings(es.Auth)
 		switch e.Type {
 		case "create":
-			es.Type, es.StateKey = "m.room.create", strp("")
+			es.Type, es.StateKey = "m.room.create", strp(stateKeyOf(e))
 			c := map[string]interface{}{"room_version": ver}
 			if !(ver == "11" || isDomainless(ver)) {
 				c["creator"] = userIDs[e.Sender]
@@ -247,7 +434,7 @@ func (m *roomM) build() {
 				c["additional_creators"] = addl
 			}
 			es.Content = c
-			if isDomainless(ver) {
+			if isDomainless(ver) && e.SKey == "" {
 				es.RoomID = ""
 			}
 		case "member":
@@ -413,6 +600,9 @@ func (m *roomM) describe() string {
 			if r := e.pud(); r >= 0 {
 				s += fmt.Sprintf(" users_default=%d", roomLadder[r])
 			}
+			if e.Spell != "" && e.Spell != "int" {
+				s += " levels spelled " + e.Spell
+			}
 		}
 		if e.Type == "jr" {
 			s += " " + e.JR
@@ -489,6 +679,25 @@ func (m *roomM) shapeKey() string {
 	return strings.Join(parts, "+")
 }
 
+// spellKey names the spelling dimension of a query in disagreement keys: "" for integer-only rooms.
+func (m *roomM) spellKey() string {
+	seen := map[string]bool{}
+	for _, e := range m.q.Events {
+		if e.Type == "pl" && e.Spell != "" && e.Spell != "int" {
+			seen[e.Spell] = true
+		}
+	}
+	if len(seen) == 0 {
+		return ""
+	}
+	var out []string
+	for sp := range seen {
+		out = append(out, sp)
+	}
+	sort.Strings(out)
+	return "/levels-spelled-" + strings.Join(out, "+")
+}
+
 func c10Replay(i int, raw json.RawMessage, seed int) Result {
 	var q resQuery
 	if err := json.Unmarshal(raw, &q); err != nil {
@@ -497,21 +706,17 @@ func c10Replay(i int, raw json.RawMessage, seed int) Result {
 	m := materialise(&q)
 	want := append([]int(nil), q.Result...)
 	sort.Ints(want)
-	var sets [][]gmsl.PDU
 	var all []int
 	for _, s := range q.Sets {
-		sets = append(sets, m.list(s))
 		all = unionInts(all, s)
 	}
 	// the specified state is a function of the set of state sets: with three sets every presentation order is run
-	orders := [][][]gmsl.PDU{sets}
-	if len(sets) == 3 {
-		for _, p := range [][3]int{{0, 2, 1}, {1, 0, 2}, {1, 2, 0}, {2, 0, 1}, {2, 1, 0}} {
-			orders = append(orders, [][]gmsl.PDU{sets[p[0]], sets[p[1]], sets[p[2]]})
-		}
+	orders := [][]int{{0, 1, 2}}
+	if len(q.Sets) == 3 {
+		orders = [][]int{{0, 1, 2}, {0, 2, 1}, {1, 0, 2}, {1, 2, 0}, {2, 0, 1}, {2, 1, 0}}
 	}
 	algo := algoOf(q.Ver)
-	nt := fmt.Sprintf("%s|%s|rej=%v|res=%v", q.Ver, m.shapeKey(), q.Rejected, want)
+	nt := fmt.Sprintf("%s|%s%s|rej=%v|res=%v", q.Ver, m.shapeKey(), m.spellKey(), q.Rejected, want)
 	// Room.tla only lets honest servers send what the rules allow on the state they resolved: every event of the
 	// room must therefore be allowed by its own auth events (this binds Room!Send's guard to the real Allowed)
 	for _, e := range q.Events {
@@ -523,53 +728,86 @@ func c10Replay(i int, raw json.RawMessage, seed int) Result {
 			panic(err)
 		}
 		if err := gmsl.Allowed(m.pdus[e.ID], prov, identityQuerier); err != nil {
-			return Result{OK: false, NT: nt, Key: fmt.Sprintf("C10/room-event-not-allowed/%s", e.Type), Want: true, Got: false,
+			return Result{OK: false, NT: nt, Key: fmt.Sprintf("C10/room-event-not-allowed/%s%s", e.Type, m.spellKey()), Want: true, Got: false,
 				What: fmt.Sprintf("Room.tla sends event %d (allowed by the specification's rules on auth events %v) but the real Allowed refuses it: %v; room (version %s): %s", e.ID, e.Auth, err, q.Ver, m.describe())}
 		}
 	}
-	checkOne := func(entry string, auth []int, sets [][]gmsl.PDU) *Result {
+	// rm: the room as materialised under one realisation of the depth ranks
+	checkOne := func(rm *roomM, entry string, auth []int, order []int) *Result {
+		var sets [][]gmsl.PDU
+		for _, k := range order[:len(q.Sets)] {
+			sets = append(sets, rm.list(q.Sets[k]))
+		}
 		var got []gmsl.PDU
 		switch entry {
 		case "ResolveConflictsNew":
-			r, err := gmsl.ResolveConflictsNew(gmsl.RoomVersion(q.Ver), sets, m.list(auth), identityQuerier, m.rejectedFn())
+			r, err := gmsl.ResolveConflictsNew(gmsl.RoomVersion(q.Ver), sets, rm.list(auth), identityQuerier, rm.rejectedFn())
 			if err != nil {
 				panic(err)
 			}
 			got = r
 		case "ResolveStateConflictsV2New":
-			got = gmsl.ResolveStateConflictsV2New(algo, sets, m.list(auth), identityQuerier, m.rejectedFn())
+			got = gmsl.ResolveStateConflictsV2New(algo, sets, rm.list(auth), identityQuerier, rm.rejectedFn())
 		}
-		g := m.idsOf(got)
+		g := rm.idsOf(got)
 		if !sameInts(g, want) {
-			return &Result{OK: false, NT: nt, Key: fmt.Sprintf("C10/%s/algo=%d/%s", entry, algo, m.shapeKey()), Want: want, Got: g,
-				What: fmt.Sprintf("%s (room version %s): resolved state %v, specification says %v; state sets %v; power order %v%s, others %v, auth difference %v, subgraph %v; room: %s",
-					entry, q.Ver, g, want, q.Sets, q.Power, m.powerKeys(), q.Others, q.AuthDiff, q.Subgraph, m.describe())}
+			dk, dw := "", ""
+			if rm.dr.f != nil {
+				dk = "/depths-" + strings.SplitN(rm.dr.name, "(", 2)[0]
+				dw = fmt.Sprintf("; the depth ranks of the model realised as %s, i.e. depths %v", rm.dr.name, rm.depthList())
+			}
+			return &Result{OK: false, NT: nt, Key: fmt.Sprintf("C10/%s/algo=%d/%s%s%s", entry, algo, m.shapeKey(), m.spellKey(), dk), Want: want, Got: g,
+				What: fmt.Sprintf("%s (room version %s): resolved state %v, specification says %v; state sets %v; power order %v%s, others %v, auth difference %v, subgraph %v; room: %s%s",
+					entry, q.Ver, g, want, q.Sets, q.Power, m.powerKeys(), q.Others, q.AuthDiff, q.Subgraph, m.describe(), dw)}
 		}
 		return nil
 	}
-	check := func(entry string, auth []int) *Result {
+	check := func(rm *roomM, entry string, auth []int) *Result {
 		for _, o := range orders {
-			if r := checkOne(entry, auth, o); r != nil {
+			if r := checkOne(rm, entry, auth, o); r != nil {
 				return r
 			}
 		}
 		return nil
 	}
 	if algo == gmsl.StateResV1 {
-		if r := check("ResolveConflictsNew", m.v1AuthEvents()); r != nil {
+		if r := check(m, "ResolveConflictsNew", m.v1AuthEvents()); r != nil {
 			return *r
+		}
+		// the definition reads the depths through their order only (V1DepthRankOnly): the same state under every
+		// strictly increasing realisation of the ranks, sender-chosen depths more than 2^63 apart included
+		for _, dr := range v1DepthReals(&q) {
+			rm := materialiseWith(&q, "", dr)
+			if r := check(rm, "ResolveConflictsNew", rm.v1AuthEvents()); r != nil {
+				return *r
+			}
+			nt += "|" + strings.SplitN(dr.name, "(", 2)[0]
 		}
 		return Result{OK: true, NT: nt}
 	}
 	chain := m.authChain(all)
 	for _, auth := range [][]int{chain, unionInts(chain, all)} {
 		for _, entry := range []string{"ResolveConflictsNew", "ResolveStateConflictsV2New"} {
-			if r := check(entry, auth); r != nil {
+			if r := check(m, entry, auth); r != nil {
 				return *r
 			}
 		}
 	}
+	// v2 / v2.1 do not read the depths: the same state when they run against the DAG
+	rm := materialiseWith(&q, "", againstDepths)
+	if r := checkOne(rm, "ResolveConflictsNew", unionInts(chain, all), orders[0]); r != nil {
+		return *r
+	}
 	return Result{OK: true, NT: nt}
+}
+
+// depthList: the realised depths of the room's events, by model id.
+func (m *roomM) depthList() []string {
+	var out []string
+	for _, e := range m.q.Events {
+		out = append(out, fmt.Sprintf("%d:%d", e.ID, m.dr.of(e.Depth)))
+	}
+	return out
 }
 
 // ---------------------------------------------------------------------------------------------- C11
@@ -740,6 +978,197 @@ func c11OtherProcess(a *args) (map[int]map[string][]int, error) {
 	return out, nil
 }
 
+// c11Suite runs one query, as materialised in rm, through every entry point under the presentation variants of C11.
+type c11Suite struct {
+	q      *resQuery
+	rm     *roomM
+	rng    *rand.Rand
+	fail   func(entry, kind string, want, got interface{}, what string) Result
+	byID   map[int]roomEvent
+	auth   []int
+	suppl  map[int]bool
+	light  bool // fewer variants (the extra realisations / padded rooms of a query)
+	refs   map[string][]int
+	suffix string // appended to the variant name in disagreement keys
+}
+
+func newC11Suite(q *resQuery, rm *roomM, rng *rand.Rand, fail func(entry, kind string, want, got interface{}, what string) Result) *c11Suite {
+	t := &c11Suite{q: q, rm: rm, rng: rng, fail: fail, byID: map[int]roomEvent{}, suppl: map[int]bool{}, refs: map[string][]int{}}
+	for _, e := range q.Events {
+		t.byID[e.ID] = e
+	}
+	var all []int
+	for _, s := range q.Sets {
+		all = unionInts(all, s)
+	}
+	t.auth = unionInts(rm.authChain(all), all)
+	if algoOf(q.Ver) == gmsl.StateResV1 {
+		t.auth = rm.v1AuthEvents()
+	}
+	for _, x := range unionInts(all, t.auth) {
+		t.suppl[x] = true
+	}
+	return t
+}
+
+func (t *c11Suite) keyOf(id int) string { return t.byID[id].Type + "\x00" + t.byID[id].SKey }
+
+func (t *c11Suite) wellFormed(entry string, res []int) *Result {
+	q := t.q
+	seen := map[string]int{}
+	for _, x := range res {
+		if x < 0 || !t.suppl[x] {
+			r := t.fail(entry, "not-supplied"+t.suffix, nil, res, fmt.Sprintf("result %v contains an event that was not supplied", res))
+			return &r
+		}
+		if y, dup := seen[t.keyOf(x)]; dup {
+			r := t.fail(entry, "two-events-per-key"+t.suffix, nil, res, fmt.Sprintf("result %v has two events (%d, %d) for one (type, state_key)", res, y, x))
+			return &r
+		}
+		seen[t.keyOf(x)] = x
+	}
+	// keys on which all state sets agree keep exactly that event
+	cnt := map[int]int{}
+	perKey := map[string]map[int]bool{}
+	for _, s := range q.Sets {
+		for _, x := range s {
+			cnt[x]++
+			if perKey[t.keyOf(x)] == nil {
+				perKey[t.keyOf(x)] = map[int]bool{}
+			}
+			perKey[t.keyOf(x)][x] = true
+		}
+	}
+	var agreed []int
+	for x, n := range cnt {
+		if n == len(q.Sets) && len(perKey[t.keyOf(x)]) == 1 {
+			agreed = append(agreed, x)
+		}
+	}
+	sort.Ints(agreed)
+	for _, x := range agreed {
+		if y, ok := seen[t.keyOf(x)]; !ok || y != x {
+			r := t.fail(entry, "agreed-key-changed"+t.suffix, x, res, fmt.Sprintf("all state sets agree on event %d for its key but the result %v does not contain it", x, res))
+			return &r
+		}
+	}
+	return nil
+}
+
+type c11Variant struct {
+	name string
+	sets [][]int
+	auth []int
+}
+
+func (t *c11Suite) variants() []c11Variant {
+	q, rng, auth := t.q, t.rng, t.auth
+	algo := algoOf(q.Ver)
+	vs := []c11Variant{{"baseline", q.Sets, auth}}
+	// every other order of the state sets
+	perms := [][]int{{1, 0}}
+	if len(q.Sets) == 3 {
+		perms = [][]int{{0, 2, 1}, {1, 0, 2}, {1, 2, 0}, {2, 0, 1}, {2, 1, 0}}
+	}
+	if len(q.Sets) <= 3 {
+		for _, p := range perms {
+			var ss [][]int
+			for _, k := range p {
+				ss = append(ss, q.Sets[k])
+			}
+			vs = append(vs, c11Variant{"sets-permuted", ss, auth})
+		}
+	}
+	nShuffles, nRepeats := 3, 4
+	if t.light {
+		nShuffles, nRepeats = 2, 1
+	}
+	for k := 0; k < nShuffles; k++ {
+		var ss [][]int
+		for _, s := range shuffled(rng, q.Sets) {
+			ss = append(ss, shuffled(rng, s))
+		}
+		vs = append(vs, c11Variant{"shuffled", ss, shuffled(rng, auth)})
+	}
+	if algo != gmsl.StateResV1 && !t.light {
+		dup := append(append([]int(nil), auth...), shuffled(rng, auth)[:(len(auth)+1)/2]...)
+		vs = append(vs, c11Variant{"auth-duplicated", q.Sets, shuffled(rng, dup)})
+	}
+	for k := 0; k < nRepeats; k++ {
+		vs = append(vs, c11Variant{"repeat", q.Sets, auth})
+	}
+	return vs
+}
+
+// resolve runs one entry point on one variant.
+func (t *c11Suite) resolve(entry string, v c11Variant) []int {
+	q, m, rng := t.q, t.rm, t.rng
+	algo := algoOf(q.Ver)
+	var sets [][]gmsl.PDU
+	var union []int
+	for _, s := range v.sets {
+		sets = append(sets, m.list(s))
+		union = append(union, s...)
+	}
+	// the deprecated entry points take the union of the state sets / their own conflicted-unconflicted split
+	uniq := unionInts(union)
+	perKey := map[string][]int{}
+	for _, x := range uniq {
+		perKey[t.keyOf(x)] = append(perKey[t.keyOf(x)], x)
+	}
+	var conflicted, unconflicted []int
+	for _, x := range shuffled(rng, uniq) {
+		if len(perKey[t.keyOf(x)]) > 1 {
+			conflicted = append(conflicted, x)
+		} else {
+			unconflicted = append(unconflicted, x)
+		}
+	}
+	var got []gmsl.PDU
+	switch entry {
+	case "ResolveConflictsNew":
+		r, err := gmsl.ResolveConflictsNew(gmsl.RoomVersion(q.Ver), sets, m.list(v.auth), identityQuerier, m.rejectedFn())
+		if err != nil {
+			panic(err)
+		}
+		got = r
+	case "ResolveStateConflictsV2New":
+		got = gmsl.ResolveStateConflictsV2New(algo, sets, m.list(v.auth), identityQuerier, m.rejectedFn())
+	case "ResolveConflicts(deprecated)":
+		r, err := gmsl.ResolveConflicts(gmsl.RoomVersion(q.Ver), m.list(shuffled(rng, union)), m.list(v.auth), identityQuerier, m.rejectedFn())
+		if err != nil {
+			panic(err)
+		}
+		got = r
+	case "ResolveStateConflictsV2(deprecated)":
+		got = gmsl.ResolveStateConflictsV2(m.list(conflicted), m.list(unconflicted), m.list(v.auth), identityQuerier, m.rejectedFn())
+	case "ResolveStateConflicts":
+		got = append(gmsl.ResolveStateConflicts(m.list(conflicted), m.list(v.auth), identityQuerier), m.list(unconflicted)...)
+	}
+	return m.idsOf(got)
+}
+
+// run: per entry point all variants give one well-formed ID set (kept in t.refs).
+func (t *c11Suite) run() *Result {
+	for _, entry := range c11Entries(algoOf(t.q.Ver)) {
+		var ref []int
+		for k, v := range t.variants() {
+			g := t.resolve(entry, v)
+			if r := t.wellFormed(entry, g); r != nil {
+				return r
+			}
+			if k == 0 {
+				ref = g
+			} else if !sameInts(g, ref) {
+				r := t.fail(entry, v.name+t.suffix, ref, g, fmt.Sprintf("result %v under variant %q differs from the baseline result %v", g, v.name, ref))
+				return &r
+			}
+		}
+		t.refs[entry] = ref
+	}
+	return nil
+}
+
 func c11Replay(i int, raw json.RawMessage, seed int, other map[int]map[string][]int) Result {
 	// position of the record in the file the second process read (a record re-executed alone is told its
 	// position in the original batch through VERIF_INDEX_BASE)
@@ -758,150 +1187,102 @@ func c11Replay(i int, raw json.RawMessage, seed int, other map[int]map[string][]
 	h.Write(raw)
 	rng := rand.New(rand.NewSource(int64(seed)*1000003 + int64(h.Sum64()>>1)))
 	algo := algoOf(q.Ver)
-	var all []int
-	for _, s := range q.Sets {
-		all = unionInts(all, s)
-	}
-	chain := m.authChain(all)
-	auth := unionInts(chain, all)
-	if algo == gmsl.StateResV1 {
-		auth = m.v1AuthEvents()
-	}
 	byID := map[int]roomEvent{}
 	for _, e := range q.Events {
 		byID[e.ID] = e
 	}
-	keyOf := func(id int) string { return byID[id].Type + "\x00" + byID[id].SKey }
-	supplied := map[int]bool{}
-	for _, x := range unionInts(all, auth) {
-		supplied[x] = true
-	}
-	shape := m.shapeKey()
+	shape := m.shapeKey() + m.spellKey()
 	nt := fmt.Sprintf("%s|%s", q.Ver, shape)
+	descr := m.describe()
 	fail := func(entry, kind string, want, got interface{}, what string) Result {
 		return Result{OK: false, NT: nt, Key: fmt.Sprintf("C11/%s/%s/algo=%d/%s", entry, kind, algo, shape), Want: want, Got: got,
-			What: fmt.Sprintf("%s (room version %s): %s; state sets %v; room: %s", entry, q.Ver, what, q.Sets, m.describe())}
+			What: fmt.Sprintf("%s (room version %s): %s; state sets %v; room: %s", entry, q.Ver, what, q.Sets, descr)}
 	}
-	wellFormed := func(entry string, res []int) *Result {
-		seen := map[string]int{}
-		for _, x := range res {
-			if x < 0 || !supplied[x] {
-				r := fail(entry, "not-supplied", nil, res, fmt.Sprintf("result %v contains an event that was not supplied", res))
-				return &r
-			}
-			if y, dup := seen[keyOf(x)]; dup {
-				r := fail(entry, "two-events-per-key", nil, res, fmt.Sprintf("result %v has two events (%d, %d) for one (type, state_key)", res, y, x))
-				return &r
-			}
-			seen[keyOf(x)] = x
-		}
-		// keys on which all state sets agree keep exactly that event
-		cnt := map[int]int{}
-		perKey := map[string]map[int]bool{}
-		for _, s := range q.Sets {
-			for _, x := range s {
-				cnt[x]++
-				if perKey[keyOf(x)] == nil {
-					perKey[keyOf(x)] = map[int]bool{}
-				}
-				perKey[keyOf(x)][x] = true
-			}
-		}
-		for x, n := range cnt {
-			if n == len(q.Sets) && len(perKey[keyOf(x)]) == 1 && seen[keyOf(x)] != x {
-				r := fail(entry, "agreed-key-changed", x, res, fmt.Sprintf("all state sets agree on event %d for its key but the result %v does not contain it", x, res))
-				return &r
-			}
-		}
-		return nil
-	}
-
-	type variant struct {
-		name string
-		sets [][]int
-		auth []int
-	}
-	mkVariants := func() []variant {
-		var vs []variant
-		vs = append(vs, variant{"baseline", q.Sets, auth})
-		rev := make([][]int, len(q.Sets))
-		for k := range q.Sets {
-			rev[len(q.Sets)-1-k] = q.Sets[k]
-		}
-		vs = append(vs, variant{"sets-reversed", rev, auth})
-		for k := 0; k < 3; k++ {
-			var ss [][]int
-			for _, s := range shuffled(rng, q.Sets) {
-				ss = append(ss, shuffled(rng, s))
-			}
-			vs = append(vs, variant{"shuffled", ss, shuffled(rng, auth)})
-		}
-		if algo != gmsl.StateResV1 {
-			dup := append(append([]int(nil), auth...), shuffled(rng, auth)[:(len(auth)+1)/2]...)
-			vs = append(vs, variant{"auth-duplicated", q.Sets, shuffled(rng, dup)})
-		}
-		for k := 0; k < 4; k++ {
-			vs = append(vs, variant{"repeat", q.Sets, auth})
-		}
-		return vs
+	base := newC11Suite(&q, m, rng, fail)
+	if r := base.run(); r != nil {
+		return *r
 	}
 	for _, entry := range c11Entries(algo) {
-		var ref []int
-		for k, v := range mkVariants() {
-			var sets [][]gmsl.PDU
-			var union []int
-			for _, s := range v.sets {
-				sets = append(sets, m.list(s))
-				union = append(union, s...)
-			}
-			// the deprecated entry points take the union of the state sets / their own conflicted-unconflicted split
-			uniq := unionInts(union)
-			perKey := map[string][]int{}
-			for _, x := range uniq {
-				perKey[keyOf(x)] = append(perKey[keyOf(x)], x)
-			}
-			var conflicted, unconflicted []int
-			for _, x := range shuffled(rng, uniq) {
-				if len(perKey[keyOf(x)]) > 1 {
-					conflicted = append(conflicted, x)
-				} else {
-					unconflicted = append(unconflicted, x)
-				}
-			}
-			var got []gmsl.PDU
-			switch entry {
-			case "ResolveConflictsNew":
-				r, err := gmsl.ResolveConflictsNew(gmsl.RoomVersion(q.Ver), sets, m.list(v.auth), identityQuerier, m.rejectedFn())
-				if err != nil {
-					panic(err)
-				}
-				got = r
-			case "ResolveStateConflictsV2New":
-				got = gmsl.ResolveStateConflictsV2New(algo, sets, m.list(v.auth), identityQuerier, m.rejectedFn())
-			case "ResolveConflicts(deprecated)":
-				r, err := gmsl.ResolveConflicts(gmsl.RoomVersion(q.Ver), m.list(shuffled(rng, union)), m.list(v.auth), identityQuerier, m.rejectedFn())
-				if err != nil {
-					panic(err)
-				}
-				got = r
-			case "ResolveStateConflictsV2(deprecated)":
-				got = gmsl.ResolveStateConflictsV2(m.list(conflicted), m.list(unconflicted), m.list(v.auth), identityQuerier, m.rejectedFn())
-			case "ResolveStateConflicts":
-				got = append(gmsl.ResolveStateConflicts(m.list(conflicted), m.list(v.auth), identityQuerier), m.list(unconflicted)...)
-			}
-			g := m.idsOf(got)
-			if r := wellFormed(entry, g); r != nil {
-				return *r
-			}
-			if k == 0 {
-				ref = g
-			} else if !sameInts(g, ref) {
-				return fail(entry, v.name, ref, g, fmt.Sprintf("result %v under variant %q differs from the baseline result %v", g, v.name, ref))
-			}
-		}
+		ref := base.refs[entry]
 		// ... and on every run of the process: a second process that resolved the batch in the opposite order
 		if o, ok := other[recIndex][entry]; ok && !sameInts(o, ref) {
 			return fail(entry, "other-process-history", ref, o, fmt.Sprintf("this process returns %v; a second process that resolved the batch in the opposite order (and, in room versions with sender-chosen event IDs, every query under IDs of its own) returns %v: the result depends on what the process resolved earlier", ref, o))
+		}
+	}
+	// Sender-chosen depths.  Algorithm v1 reads them, through their order only (StateRes!V1StrictTotal,
+	// V1DepthRankOnly): under every strictly increasing realisation of the model's depth ranks - depths more than
+	// 2^63 apart, negative ones included - the conflicted blocks are still totally ordered: all presentations give
+	// one state.  v2 / v2.1 never read them: the same state also when the depths run against the DAG.
+	reals := []depthReal{againstDepths}
+	if algo == gmsl.StateResV1 {
+		reals = v1DepthReals(&q)
+	}
+	for _, dr := range reals {
+		short := strings.SplitN(dr.name, "(", 2)[0]
+		rm := materialiseWith(&q, "", dr)
+		t := newC11Suite(&q, rm, rng, func(entry, kind string, want, got interface{}, what string) Result {
+			return fail(entry, kind, want, got, fmt.Sprintf("with the model's depth ranks realised as %s, i.e. depths %v: %s", dr.name, rm.depthList(), what))
+		})
+		t.light, t.suffix = true, "/depths-"+short
+		if algo == gmsl.StateResV1 {
+			if r := t.run(); r != nil {
+				return *r
+			}
+		} else {
+			for _, entry := range c11Entries(algo) {
+				g := t.resolve(entry, c11Variant{"baseline", q.Sets, t.auth})
+				if r := t.wellFormed(entry, g); r != nil {
+					return *r
+				}
+				t.refs[entry] = g
+			}
+		}
+		// (that the state is the one of the natural realisation is C10's business: c10Replay compares each with the
+		// specified state; here only what C11 states: one state for all presentations, well formed.  v2 / v2.1, which
+		// never read a depth, are held to the baseline of the natural depths: the depths are then just one more
+		// presentation detail)
+		if algo != gmsl.StateResV1 {
+			for _, entry := range c11Entries(algo) {
+				if !sameInts(t.refs[entry], base.refs[entry]) {
+					return fail(entry, "depths-not-read-by-the-algorithm/depths-"+short, base.refs[entry], t.refs[entry],
+						fmt.Sprintf("result %v with sender-chosen depths %s (depths %v) differs from the result %v under the natural depths: state resolution v2 / v2.1 does not read depths", t.refs[entry], dr.name, rm.depthList(), base.refs[entry]))
+				}
+			}
+		}
+		nt += "|" + short
+	}
+	// Padding (StateRes!PadNeutral): one more event of a control type under a state key of its own in every state
+	// set is an agreed entry of the state map: it is kept, every other key resolves as before.
+	// (one of the three types per query, chosen by the query itself: every room shape meets each type many times over)
+	for _, typ := range []string{[]string{"create", "pl", "jr"}[h.Sum64()%3]} {
+		qp, padID := padded(&q, typ)
+		mp := materialise(qp)
+		t := newC11Suite(qp, mp, rng, func(entry, kind string, want, got interface{}, what string) Result {
+			return fail(entry, kind, want, got, fmt.Sprintf("with event %d - type %s, state key %q, sent by the creator, cited by nothing - added to every state set: %s", padID, typ, "padding", what))
+		})
+		t.suffix = "/padded-with-" + typ + "@key"
+		for _, entry := range c11Entries(algo) {
+			var v c11Variant
+			for _, x := range t.variants() {
+				if x.name == "shuffled" {
+					v = x
+					break
+				}
+			}
+			g := t.resolve(entry, v)
+			if r := t.wellFormed(entry, g); r != nil {
+				return *r
+			}
+			var rest []int
+			for _, x := range g {
+				if x != padID {
+					rest = append(rest, x)
+				}
+			}
+			if !sameInts(rest, base.refs[entry]) {
+				return fail(entry, "padding-changes-other-keys"+t.suffix, base.refs[entry], g,
+					fmt.Sprintf("with event %d (type %s, state key %q, cited by nothing) added to every state set the result is %v; without it %v: an agreed entry under a key of its own changes what the other keys resolve to", padID, typ, "padding", g, base.refs[entry]))
+			}
 		}
 	}
 	// orderings: every ordering returned for this acyclic event set is a permutation of the distinct inputs in
@@ -936,6 +1317,7 @@ func c11Replay(i int, raw json.RawMessage, seed int, other map[int]map[string][]
 	for _, e := range q.Events {
 		everything = append(everything, e.ID)
 	}
+	var against *roomM
 	for _, ord := range []struct {
 		name  string
 		order gmsl.TopologicalOrder
@@ -944,10 +1326,18 @@ func c11Replay(i int, raw json.RawMessage, seed int, other map[int]map[string][]
 		{"by-auth-events", gmsl.TopologicalOrderByAuthEvents, func(e roomEvent) []int { return e.Auth }},
 		{"by-prev-events", gmsl.TopologicalOrderByPrevEvents, func(e roomEvent) []int { return e.Prev }},
 	} {
-		for k := 0; k < 4; k++ {
-			// all events, or a subset that keeps the create event, in a random presentation order, sometimes with duplicates
+		for k := 0; k < 6; k++ {
+			// all events, or a subset that keeps the create event, in a random presentation order, sometimes with duplicates;
+			// the last two rounds on the room whose sender-chosen depths run against the DAG (no ordering reads them)
+			m := m
+			if k >= 4 {
+				if against == nil {
+					against = materialiseWith(&q, "", againstDepths)
+				}
+				m = against
+			}
 			input := shuffled(rng, everything)
-			if k >= 2 {
+			if k == 2 || k == 3 {
 				var sub []int
 				for _, x := range input {
 					if byID[x].Type == "create" || rng.Intn(3) > 0 {
@@ -991,6 +1381,14 @@ func c11Replay(i int, raw json.RawMessage, seed int, other map[int]map[string][]
 					}
 				}
 			}
+		}
+	}
+	// LineariseStateResponse on responses taken from the room as servers would send it (c10lin.go); the variants of a
+	// query with a rejected-event oracle share the room of the plain query
+	// (every other query: the rooms recur from query to query)
+	if len(q.Rejected) == 0 && h.Sum64()%2 == 0 {
+		if r := c11Linearise(&q, m, rng, fail); r != nil {
+			return *r
 		}
 	}
 	return Result{OK: true, NT: nt}
